@@ -794,6 +794,29 @@ func checkLockOrder(c *Ctx) {
 			}
 		}
 	}
+	// re-entry: a call made while holding a mutex must not (transitively, synchronously)
+	// acquire that same mutex again - sync.Mutex is not reentrant, and a nested RLock on a
+	// sync.RWMutex deadlocks as soon as a writer queues between the two acquisitions
+	ruleR := "no lock re-entry: no call made while a mutex is held acquires the same mutex again (a nested read lock deadlocks once a writer is waiting)"
+	c.Rule(ruleR)
+	nre := 0
+	for _, u := range la.units {
+		for _, a := range u.Acc {
+			if a.Call == nil {
+				continue
+			}
+			callee := p.ByObj[a.Call]
+			if callee == nil {
+				continue
+			}
+			for held := range a.Held {
+				nre++
+				c.Check(fmt.Sprintf("C20/lock-order/no-reentry/%s->%s/%s", u.Name, callee.Name, held), ruleR, a.Pos, !acq[callee][held],
+					fmt.Sprintf("%s calls %s while holding %s, and %s (or a function it calls) acquires %s again", u.Name, callee.Name, held, callee.Name, held))
+			}
+		}
+	}
+	c.Extra["calls_under_lock"] = nre
 	// direct nesting inside one function: Lock(b) while a held
 	for _, fn := range p.SortedFuncs() {
 		held := map[string]bool{}
